@@ -408,7 +408,7 @@ int main(int argc, char** argv) {
     } }
   for (int h = 0; h < 2; ++h) for (int ic = 0; ic < 1; ++ic) { typedef ReqFam<float, std::less<float> > F;
     Cfg c; c.k = 4; c.hra = h == 1; c.init_coin = ic; std::vector<Cfg> oc; oc.push_back(c); Cfg c2 = c; c2.k = 6; oc.push_back(c2);
-    family_tasks<F>(tasks, cfg, "req-float", c, oc, q ? 26 : 30, q ? 160 : 320, 24, q ? 30 : 50, q ? 200 : 320); }
+    family_tasks<F>(tasks, cfg, "req-float", c, oc, q ? 26 : 30, q ? 160 : 320, 24, q ? 47 : 50, q ? 200 : 320); }   // 47: one short of the two-level capacity, so the update after a merge compacts
   { typedef ClassicFam<int, std::less<int> > F; Cfg c; c.k = 2; std::vector<Cfg> oc; oc.push_back(c); Cfg c2; c2.k = 4; oc.push_back(c2); c2.k = 8; if (!q) oc.push_back(c2);
     family_tasks<F>(tasks, cfg, "classic-int", c, oc, q ? 10 : 14, q ? 30 : 48, 5, q ? 9 : 13, q ? 40 : 60);
     // larger k merged into smaller k exercises the down-sampling merge (raw uniform offset): base k=4 with k=2 operand and vice versa
